@@ -45,11 +45,18 @@ package parser
 //@ func (*Lexer).tokenOf
 //@   ensures result.Type == ty && result.Start.Line == l.line && result.Start.Column == l.column && result.End == result.Start
 
+// a lexer diagnostic is a zero-width range at the lexer's current position
+//@ spec func errAt(e error, line int, col int) bool = typeis(e, *errpos.Err) && as(*errpos.Err, e) != nil && as(*errpos.Err, e).Pos != nil
+//@   | && as(*errpos.Err, e).Pos.Start.Line == line && as(*errpos.Err, e).Pos.Start.Column == col
+//@   | && as(*errpos.Err, e).Pos.End.Line == line && as(*errpos.Err, e).Pos.End.Column == col
+
 //@ func (*Lexer).errf
 //@   ensures result != nil
+//@   ensures at: errAt(result, l.line, l.column)
 
 //@ func (*Lexer).unexpectedEOF
 //@   ensures result != nil
+//@   ensures at: errAt(result, l.line, l.column)
 
 //@ func (*Lexer).lexIdent
 //@   ensures l.data == old(l.data) && l.offset >= old(l.offset) && lexPosLE(old(l.line), old(l.column), l.line, l.column) && (old(l.column) >= 0 ==> l.column >= 0)
